@@ -108,6 +108,11 @@ def jobs(tier):
         for a in OPS:
             for b in OPS:
                 out.append(Job("switching-history", h_history, dict(first=[a, b], depth=4, aw=5), cost=12))
+        # depth 5 for the histories that start by giving pipe 0 a user address and then a TX address
+        for a in ("open_rx0_5", "open_rx0_3"):
+            for b in ("open_tx_5", "open_tx_3"):
+                for c in OPS:
+                    out.append(Job("switching-history", h_history, dict(first=[a, b, c], depth=5, aw=5), cost=12))
     else:
         for a in OPS:
             for b in OPS:
@@ -119,7 +124,8 @@ def jobs(tier):
 
 
 META = {
-    "bounds": {"quick": "all 11^4 call histories of depth 4 at address_length 5 and all 11^3 of depth 3 at address_length 3 and 4, "
+    "bounds": {"quick": "all 11^4 call histories of depth 4 at address_length 5 and all 11^3 of depth 3 at address_length 3 and 4, the depth-5 histories "
+                        "that start with open_rx_pipe(0, .), open_tx_pipe(.), "
                         "over the alphabet open_rx_pipe(0, 5 or 3 symbolic "
                         "bytes), close_rx_pipe(0), open_tx_pipe(5 or 3 symbolic bytes), auto_ack True/False, set_auto_ack(., 0), "
                         "listen True/False",
